@@ -1200,13 +1200,18 @@ def signature(c, res):
         sig['drank'] = len(a['denom'])
         sig['size'] = prod(a['shape'])
         sig['nderivs'] = len(a['derivs'])
-        sig['item_rank'] = sig['nrank'] + sig['drank']
+        # largest item rank among the object and its derivatives
+        sig['item_rank'] = max([sig['nrank'] + sig['drank']] +
+                               [sig['nrank'] + len(dd['denom']) for dd in a['derivs']])
         if c['kind'] == 'inv' and c['pair'] == 'swap_items':
             # the second swap sees numerator and denominator exchanged
             sig['nrank'], sig['drank'] = max(sig['nrank'], sig['drank']), min(sig['nrank'], sig['drank'])
     if c['kind'] == 'inv' and c['pair'] == 'reshape':
         t = c['args'][0]
         sig['target_rank'] = len(t) if isinstance(t, (list, tuple)) else 1
+        if not c['a']['shape'] and sig['target_rank'] > 0:
+            # the way back is the reshape to (): describe that step
+            sig['rank'], sig['target_rank'] = sig['target_rank'], 0
     if c['kind'] == 'from_scalars':
         sig['cls'] = c['cls']
         sig['shape_given'] = c.get('mshape') is not None
